@@ -31,6 +31,8 @@ def family_programs(tier: str):
 
     for fam in (C12, C13):
         for j in fam.jobs(tier):
+            if j["meta"].get("owner_only"):
+                continue
             yield j["prog"], j["configs"][0]["inp"]
 
 
